@@ -117,7 +117,9 @@ def check_table(ctx, g, fam, d, ms):
     # ---- precedences implied by the declarations ----
     etp = {int(s[0]): (int(s[1]), int(s[2])) for s in ms.get("ETP", [])}
     epp = {int(s[0]): (int(s[1]), int(s[2])) for s in ms.get("EPP", [])}
-    if ms.get("EDUP") or ms.get("EPANIC") or ms.get("EMISMATCH"):
+    if getattr(g, "raw", False):
+        pass                      # replay from source text: no abstract declarations to compare with
+    elif ms.get("EDUP") or ms.get("EPANIC") or ms.get("EMISMATCH"):
         ctx.count("decl_irregular")
     elif etp != d.tprec:
         ok = False
